@@ -16,7 +16,8 @@
     MODELLED (trusted) — the calls the translator maps, after checking their exact shape in the AST, to the
     operations of Gpkg/WriterOps.v (which are defined from the pieces of Gpkg/Model.v):
       target.handle.Begin() = op_Begin;  tx.Prepare(Table.insertSQL()) = op_Prepare .. (op_insertSQL ..);
-      gpkg.NewBinary(int32(srs id), geometry) = op_NewBinary;  stmt.Exec(data...) = op_Exec (= insert_row);
+      gpkg.NewBinary(int32(srs id), geometry) = op_NewBinary (the blob = that srs id + the geometry);
+      stmt.Exec(data...) = op_Exec (= insert_row; a blob whose srs id is not the table's is outside the model);
       stmt.Close() = op_StmtClose;  tx.Commit() = op_Commit;  target.handle.UpdateGeometryExtent = op_UpdateGeometryExtent
       (= merge_extent);  cmp.IsEmptyGeo = op_IsEmptyGeo (= geom_empty);  geom.NewExtentFromGeometry =
       op_NewExtentFromGeometry;  ext.AddGeometry = op_AddGeometry;  Feature.Geometry()/Columns() = f_geom / op_Columns;
@@ -45,7 +46,7 @@ Proof.
   apply firstn_all.
 Qed.
 
-Lemma split_args_columns : forall attrs g, split_args (map AVal attrs ++ [ABin g]) = Some (attrs, g).
+Lemma split_args_columns : forall attrs (g : blob), split_args (map AVal attrs ++ [ABin g]) = Some (attrs, g).
 Proof.
   induction attrs as [|a attrs IH]; intros g; [reflexivity|].
   cbn [map app split_args]. now rewrite IH.
@@ -62,26 +63,26 @@ Variable tg : target.
 
 (** any loop body that does, per feature, what [insert_row] and [page_step] do *)
 Definition body_ok (body : feature -> world * option ext -> wres (lctl (world * option ext))) : Prop :=
-  forall f d o t ts dirty e,
-  body f (page_world d o t ts dirty, e) =
-  match insert_row t ts f with
-  | Ok ts' => WOk (Cont (page_world d o t ts' true, page_step e (f_geom f)))
+  forall f d o ts dirty e,
+  body f (page_world d o (tg_Table tg) ts dirty, e) =
+  match insert_row (tg_Table tg) ts f with
+  | Ok ts' => WOk (Cont (page_world d o (tg_Table tg) ts' true, page_step e (f_geom f)))
   | Err x => WErr (Model x)
   end.
 
-Lemma page_loop_spec : forall body, body_ok body -> forall fs d o t ts dirty e,
-  wrange_loop body fs (page_world d o t ts dirty, e) =
-  match foldM (insert_row t) fs ts with
-  | Ok ts' => WOk (page_world d o t ts' (dirty || match fs with [] => false | _ => true end),
+Lemma page_loop_spec : forall body, body_ok body -> forall fs d o ts dirty e,
+  wrange_loop body fs (page_world d o (tg_Table tg) ts dirty, e) =
+  match foldM (insert_row (tg_Table tg)) fs ts with
+  | Ok ts' => WOk (page_world d o (tg_Table tg) ts' (dirty || match fs with [] => false | _ => true end),
                    fold_left page_step (map f_geom fs) e)
   | Err x => WErr (Model x)
   end.
 Proof.
-  intros body Hb. induction fs as [|f fs IH]; intros d o t ts dirty e.
+  intros body Hb. induction fs as [|f fs IH]; intros d o ts dirty e.
   - cbn [wrange_loop foldM map fold_left]. now rewrite orb_false_r.
   - cbn [wrange_loop foldM map fold_left]. rewrite Hb.
-    destruct (insert_row t ts f) as [ts'|x]; cbn [bind]; [|reflexivity].
-    rewrite IH. destruct (foldM (insert_row t) fs ts'); [|reflexivity].
+    destruct (insert_row (tg_Table tg) ts f) as [ts'|x]; cbn [bind]; [|reflexivity].
+    rewrite IH. destruct (foldM (insert_row (tg_Table tg)) fs ts'); [|reflexivity].
     rewrite orb_true_r. destruct fs; reflexivity.
 Qed.
 
@@ -98,13 +99,14 @@ Proof.
   change (MkWorld d true (Some (tg_Table tg, ts)) true false) with (page_world d true (tg_Table tg) ts false).
   match goal with |- context [wrange_loop ?b] => set (body := b) end.
   assert (Hb : body_ok body).
-  { intros [attrs g] d0 o t ts0 dirty e. subst body. unfold page_world. cbv beta iota.
+  { intros [attrs g] d0 o ts0 dirty e. subst body. unfold page_world. cbv beta iota.
     cbn [f_geom f_attrs]. unfold op_NewBinary.
     destruct (geom_known g) eqn:K.
     2:{ cbn [is_nil negb fatal]. unfold insert_row. cbn [f_geom]. rewrite K. reflexivity. }
     cbn [is_nil negb]. unfold op_Columns. cbn [f_attrs].
     rewrite slice3_full. cbn [wbind].
     unfold op_Exec. cbn [wd_prepared negb wd_pend]. rewrite split_args_columns.
+    rewrite Z.eqb_refl. cbn [negb]. set (t := tg_Table tg).
     destruct (insert_row t ts0 (MkFeature attrs g)) as [ts'|x] eqn:E.
     2:{ cbn [is_nil negb fatal].
         match goal with |- (if 0 <? zlen ?data then _ else _) = _ => destruct data as [|a l] end; [reflexivity|].
@@ -174,11 +176,42 @@ Qed.
 
 End Page.
 
+(** ** the srs id in the blob header.  [op_NewBinary] records its first argument in the blob; [op_Exec] only accepts a blob
+    whose header srs id is int32 of the srs id of the table the statement was prepared for (anything else is reported as
+    outside the model).  The equalities above never produce that report, so every blob the code hands to stmt.Exec
+    carries the table's srs id. *)
+Lemma new_binary_srs : forall srsid g, fst (op_NewBinary srsid g) = (srsid, g).
+Proof. intros srsid g. unfold op_NewBinary. now destruct (geom_known g). Qed.
+
+Lemma exec_blob_srs : forall w st data w',
+  op_Exec w st data = (w', (tt, None)) ->
+  exists t ts attrs g, wd_pend w = Some (t, ts) /\
+    split_args data = Some (attrs, (go_int32 (s_id (t_srs t)), g)) /\
+    exists ts', insert_row t ts (MkFeature attrs g) = Ok ts' /\ wd_pend w' = Some (t, ts').
+Proof.
+  intros w st data w' H. unfold op_Exec in H.
+  destruct (wd_prepared w); cbn [negb] in H; [|discriminate H].
+  destruct (wd_pend w) as [[t ts]|]; [|discriminate H].
+  destruct (split_args data) as [[attrs [sid g]]|]; [|discriminate H].
+  destruct (Z.eqb_spec sid (go_int32 (s_id (t_srs t)))) as [->|_]; cbn [negb] in H; [|discriminate H].
+  destruct (insert_row t ts (MkFeature attrs g)) as [ts'|x] eqn:E; [|discriminate H].
+  injection H as <-. exists t, ts, attrs, g. split; [reflexivity|]. split; [reflexivity|].
+  exists ts'. split; [exact E|reflexivity].
+Qed.
+
 (** the tie, both functions, every input *)
 Theorem source_tie_writer : forall tg d fs,
   gen_WriteFeatures tg (idle d) fs = lift_db (write_features (tg_pagesize tg) (tg_Table tg) d fs) /\
   gen_writeFeatures tg (idle d) fs = lift_db (flush (tg_Table tg) d fs).
 Proof. intros; split; [apply gen_WriteFeatures_write_features | apply gen_writeFeatures_flush]. Qed.
+
+Theorem source_tie_writer_srs :
+  (forall srsid g, fst (op_NewBinary srsid g) = (srsid, g)) /\
+  (forall w st data w', op_Exec w st data = (w', (tt, None)) ->
+     exists t ts attrs g, wd_pend w = Some (t, ts) /\
+       split_args data = Some (attrs, (go_int32 (s_id (t_srs t)), g)) /\
+       exists ts', insert_row t ts (MkFeature attrs g) = Ok ts' /\ wd_pend w' = Some (t, ts')).
+Proof. split; [exact new_binary_srs|exact exec_blob_srs]. Qed.
 
 (** ** The SQL texts: createSQL / selectSQL / insertSQL regenerated as functions to [string] *)
 
